@@ -110,7 +110,8 @@ def main():
             out.append("theorem %s_full_false : ¬ Full2 %s f_%s := by\n  intro h\n  have h := h %s %s []\n  revert h\n  decide\n" % (
                 nm, body, nm, lit(w[0], row.params[0]), lit(w[1], row.params[1])))
             out.append("theorem %s_sound : Sound2 %s f_%s := by\n  unfold f_%s\n  c03_sound\n" % (nm, body, nm, nm))
-            out.append("example : %s %s %s := by decide\n" % (guard, lit("3", row.params[0]), lit("2", row.params[1])))
+            ex = ("1", "4") if "rot" in guard else ("3", "2")
+            out.append("example : %s %s %s := by decide\n" % (guard, lit(ex[0], row.params[0]), lit(ex[1], row.params[1])))
             wit[nm] = {"key": row.key, "args": w, "why": why}
             n_false += 1
         else:
